@@ -30,7 +30,11 @@ UnaryDescs ==
 SameOps == <<"eq", "ne", "gt", "ge", "lt", "le", "elmax", "elmin">>
 SameDescs == Flatten2([i \in DOMAIN GridSeq |-> [f \in DOMAIN SameOps |-> <<"s", SameOps[f], GridSeq[i], One>>]])
 
-Pairs == SetToSeq({p \in Grid \X Grid : BCompatible(p[1], p[2])})
+(* rank gaps of two and more with size-1 dimensions inside the smaller operand (the broadcast odometer has one counter per  *)
+(* expanded dimension AND per new leading dimension): every rank 2 - 3 shape over {1,2} against every rank 4 shape, and some of rank 5 *)
+GapPairs == IF Thorough THEN {}
+            ELSE {p \in (ShapesOfRank(2, 2) \cup ShapesOfRank(3, 2)) \X (ShapesOfRank(4, 2) \cup {<<2, 2, 2, 2, 2>>, <<2, 1, 2, 2, 2>>, <<1, 2, 2, 1, 2>>}) : BCompatible(p[1], p[2])}
+Pairs == SetToSeq({p \in Grid \X Grid : BCompatible(p[1], p[2])} \cup GapPairs \cup {<<p[2], p[1]>> : p \in GapPairs})
 BadPairs == SetToSeq({p \in Grid \X Grid : ~BCompatible(p[1], p[2]) /\ Len(p[1]) <= 3 /\ Len(p[2]) <= 3})
 AOps == <<"add", "sub", "mul", "div">>
 (* quick: every pair, operations rotated over the pairs; thorough: every pair x every operation *)
